@@ -1032,7 +1032,8 @@ class ServerOptions(Options):
 
             pconfig = klass(
                 self,
-                name=expand(process_name, expansions, 'process_name'),
+                name=process_or_group_name(
+                    expand(process_name, expansions, 'process_name')),
                 command=command,
                 directory=directory,
                 umask=umask,
